@@ -559,6 +559,16 @@ fn check_epoll_table(w: &mut World) {
                 subs.dedup();
                 if subs.len() != n {
                     alarms.push(("C16.exact".into(), "duplicate-sub-key".into(), format!("source #{} has two fds registered under one key", s.uid)));
+                } else if n > 0 && matches!(s.spec.kind, Kind::Gen { .. } | Kind::Comp { .. }) {
+                    // a (re-)registration hands out consecutive sub-ids, beginning after the wrapper's own token and the
+                    // watchdog's: the keys the kernel holds are the ones of the last registration round, not older ones
+                    let off = s.spec.lifecycle as usize + (s.is_timer() && s.arm.is_some()) as usize;
+                    let got: Vec<usize> = subs.iter().map(|d| calloop::verif::unpack(*d as usize).2 as usize).collect();
+                    let want: Vec<usize> = (off..off + n).collect();
+                    let timer_unsure = s.is_timer() && matches!(s.spec.kind, Kind::Comp { .. });
+                    if got != want && !timer_unsure && !s.sparse_sub_ids {
+                        alarms.push(("C16.exact".into(), "wrong-key".into(), format!("source #{} holds the sub-ids {:?} in the kernel, its last registration handed out {:?}", s.uid, got, want)));
+                    }
                 }
             }
         }
